@@ -1,4 +1,4 @@
-CONSTANTS Scope = "small" Mutant = "none" DepEnumOffered = FALSE
+CONSTANTS Scope = "small" Mutant = "none" DepEnumOffered = FALSE DepMapOffered = FALSE
 SPECIFICATION TSpec
 CONSTRAINT Progress
 INVARIANT Inv_ExactlyOneCall
